@@ -26,10 +26,15 @@ type cenv struct {
 	// parameter values at the call (call sites) or at entry (verification)
 	params map[string]Value
 	depth  int
+	root   *cenv // the clause's top-level environment: lets are evaluated there, once
+	lets   map[string]Value
 }
 
 func (e *cenv) child() *cenv {
 	c := *e
+	if c.root == nil {
+		c.root = e
+	}
 	c.binds = map[string]Value{}
 	for k, v := range e.binds {
 		c.binds[k] = v
@@ -146,6 +151,9 @@ func (e *cenv) eval(x *CExpr) Value {
 // cStr is a string literal in a contract (compared against byte slices).
 type cStr struct{ s string }
 
+// cHeapArr is a heap field array passed to a spec function.
+type cHeapArr struct{ t *Term }
+
 // cPkg is a package qualifier (http2utils., spec.).
 type cPkg struct{ name string }
 
@@ -164,12 +172,23 @@ func (e *cenv) ident(name string) Value {
 				if err != nil {
 					cfail("let %s: %v", name, err)
 				}
-				e.depth++
-				if e.depth > 30 {
+				r := e
+				if e.root != nil {
+					r = e.root
+				}
+				if r.lets == nil {
+					r.lets = map[string]Value{}
+				}
+				if v, ok := r.lets[name]; ok {
+					return v
+				}
+				r.depth++
+				if r.depth > 30 {
 					cfail("let %s: recursion", name)
 				}
-				v := e.eval(ex)
-				e.depth--
+				v := r.eval(ex)
+				r.depth--
+				r.lets[name] = v
 				return v
 			}
 		}
@@ -713,6 +732,35 @@ func (e *cenv) call(x *CExpr) Value {
 			return VInt{a.off}
 		case "wide":
 			return e.eval(args[0])
+		case "called":
+			// called(f): how many times the function under contract has called f (by contract) so far
+			if len(args) != 1 {
+				cfail("called needs a function name")
+			}
+			name := normFuncName(args[0].String())
+			if v, ok := e.st.ghost["calls:"+name].(VInt); ok {
+				return v
+			}
+			return VInt{ts.Int(0)}
+		case "local":
+			// local(x): value of the function's local variable x in the state the clause is evaluated in
+			if len(args) != 1 || args[0].Kind != "ident" {
+				cfail("local needs a variable name")
+			}
+			a := fx.cellByName(e.fn, args[0].Name)
+			if a == nil {
+				cfail("no local variable %s", args[0].Name)
+			}
+			if v, ok := e.st.cells[a]; ok {
+				return v
+			}
+			return fx.zeroValue(a.Type().(*types.Pointer).Elem())
+		case "lenmap":
+			// lenmap(T.f): the map from object references of type T to len(T.f) in the current state
+			if len(args) != 1 || args[0].Kind != "sel" || args[0].Args[0].Kind != "ident" {
+				cfail("lenmap needs Type.field")
+			}
+			return cHeapArr{fx.heapGet(e.st, args[0].Args[0].Name+"."+args[0].Name+"#len", SArr)}
 		}
 		if m, ok := fx.eng.cs.Macros[f.Name]; ok {
 			if len(m.Params) != len(args) {
@@ -768,10 +816,16 @@ func (e *cenv) specCall(name string, args []*CExpr) Value {
 			ta = append(ta, e.asInt(v, args[i]))
 		case "Bool":
 			ta = append(ta, e.asBool(v, args[i]))
+		case "lenmap":
+			h, ok := v.(cHeapArr)
+			if !ok {
+				cfail("spec.%s: argument %d must be lenmap(Type.field)", name, i)
+			}
+			ta = append(ta, h.t)
 		case "bytes":
 			s, ok := v.(VSlice)
 			if !ok {
-				cfail("spec.%s: argument %d must be a byte slice", name, i)
+				cfail("spec.%s: argument %d must be a slice", name, i)
 			}
 			h := fx.heapGet(e.st, elemHeapKey(s.elem), SArr2)
 			ta = append(ta, e.viewArr(s, h), s.off, s.len)
